@@ -1,8 +1,8 @@
 import CoapVerif.Lemmas.StreamWsFeed
 /- C05, WebSocket part: memory safety of the reader model for ALL byte streams — no index ≥ 160 into `http_hdr`,
    none ≥ 14 into `rd_header`, the bytes carried over after the empty line fit `rd_header`, no read of an unwritten
-   byte — without the `hsClean` hypothesis of the correspondence proof (the handshake invariant here is
-   "`strchr(http_hdr, '\n')` finds nothing", which holds whatever the bytes are). -/
+   byte.  (Older, direct proof with the handshake invariant "`strchr(http_hdr, '\n')` finds nothing"; since the
+   correspondence proof needs no hypothesis on the bytes any more, the same follows from `feed_spec`.) -/
 namespace Coap
 open Coap.M Coap.M.Ws Coap.Spec.Stream Coap.Spec.Stream.Ws
 
@@ -174,7 +174,7 @@ theorem rdHttpHeader_safe (mode : Mode) (accept : Bytes) : ∀ (fuel : Nat) (st 
           | rej => trivial
           | ok pr => exact ⟨⟨by have := this.1.1; omega, fun _ => by have := this.1.1; omega⟩, this.2⟩
 
-/-! ### memory safety of the whole reader for ALL byte streams (no `hsClean`) -/
+/-! ### memory safety of the whole reader for ALL byte streams -/
 
 def Safe (mode : Mode) (st : St) : Prop := HsSafe st ∨ ∃ p, WsInv mode st (.fr p)
 
@@ -182,7 +182,7 @@ theorem safe_of_inv (mode : Mode) (st : St) (a : Abs) (h : WsInv mode st a) : Sa
   cases a with
   | hs s l =>
     obtain ⟨⟨h1, h2, h3, h4, h5, h6⟩, _, _⟩ := h
-    exact Or.inl ⟨h1, lfIdx_none _ h2, by omega, h4, h5, h6⟩
+    exact Or.inl ⟨h1, by rw [lfIdx_eq]; exact h2, by omega, h4, h5, h6⟩
   | fr p => exact Or.inr ⟨p, h⟩
 
 def SessSafe (mode : Mode) (av : Bytes) : List Msg × Sess × Bytes → Prop
@@ -233,7 +233,7 @@ theorem readSession_safe (mode : Mode) (accept : Bytes) (st : St) (av : Bytes) (
           have := readSession_of_post mode accept [] (av.length + fsCap + 1)
             (readSession_fr mode accept [] (av.length + fsCap + 1)) st av st'.rdHeader av' _ hpost (by omega)
           exact SessSafe_of_fr mode [] _ _ av av' _ this hlt
-  · have := readSession_spec mode accept [] st av (.fr p) hinv trivial
+  · have := readSession_spec mode accept [] st av (.fr p) hinv
     generalize readSession mode accept (av.length + fsCap + 2) st av = res at this
     obtain ⟨ms, sess, av'⟩ := res
     cases sess with
